@@ -5,6 +5,11 @@ Import ListNotations.
 
 (** ---- termination: the work owed strictly decreases, so [measure] is enough fuel ---- *)
 Lemma lsum_cons a l : list_sum (a :: l) = a + list_sum l. Proof. reflexivity. Qed.
+Lemma lsum_nil : list_sum [] = 0. Proof. reflexivity. Qed.
+Lemma lsum_remove_id {A} (f : nat * A -> nat) i l : list_sum (map f (remove_id i l)) <= list_sum (map f l).
+Proof.
+  induction l as [|[j a] r IH]; [cbn; lia|]. cbn [remove_id]. destruct (Nat.eqb i j); cbn [map]; rewrite ?lsum_cons; lia.
+Qed.
 Lemma w_script_items i sc : list_sum (map w_item (script_items i sc)) = w_script sc.
 Proof.
   unfold script_items, w_script. induction sc as [|o r IH]; [reflexivity|]. cbn [map]. rewrite !lsum_cons, IH.
@@ -33,6 +38,21 @@ Proof.
     cbn [fst snd waiting pending emit set_tokens set_waiting set_plain set_running set_pending set_next];
     rewrite ?Ew; rewrite ?map_app, ?list_sum_app, ?w_items_of; cbn [map list_sum w_item w_sop w_cont w_script snd length];
     try (match goal with E : In ?i (pending ?s0) |- _ => pose proof (length_remove_first _ _ E) end);
+    rewrite ?lsum_cons, ?lsum_nil; change (w_script []) with 0 in *;
+    try (match goal with |- context [remove_id ?i (waiting ?s0)] =>
+           pose proof (lsum_remove_id (fun p : nat * cont => w_cont (snd p)) i (waiting s0)) end);
     try lia.
 Qed.
 
+
+Lemma exec_completes fuel : forall s w, measure s w <= fuel -> snd (exec fuel s w) = [].
+Proof.
+  induction fuel as [|k IH]; intros s w Hm.
+  - destruct w as [|it r]; [reflexivity|]. exfalso. pose proof (step_measure s it r). lia.
+  - destruct w as [|it r]; [reflexivity|]. cbn [exec].
+    pose proof (step_measure s it r) as Hlt. destruct (step s it) as [s1 new]. cbn [fst snd] in Hlt.
+    apply IH. lia.
+Qed.
+
+Lemma measure_init limit ops : measure (init limit) (map IOp ops) = list_sum (map w_item (map IOp ops)).
+Proof. unfold measure, init. cbn. lia. Qed.
